@@ -84,6 +84,23 @@ fn check_polygon(acc: &mut Acc, idx: usize, shell: &[IP], holes: &[Vec<IP>], tag
     if errs.is_empty() != valid {
         acc.viol(format!("validation_errors().is_empty() != is_valid {}", tag), idx, wit);
     }
+    // the same polygon written differently: at the exact scales 2^-30 and 2^30, in f32 (small lattice values are exact), with zero coordinates written
+    // as -0.0 - validity is a property of the point set
+    if idx % 3 == 0 && cs.iter().chain(chs.iter().flatten()).all(|p| p.0.abs() < 4096 && p.1.abs() < 4096) {
+        let g = Geometry::Polygon(pg.clone());
+        acc.evals += 4;
+        let twins: Vec<(&str, Result<bool, String>)> = vec![
+            ("scaled by 2^-30", guard(|| map_geom_f(&g, &|c| Coord { x: c.x / 1073741824.0, y: c.y / 1073741824.0 }).is_valid())),
+            ("scaled by 2^30", guard(|| map_geom_f(&g, &|c| Coord { x: c.x * 1073741824.0, y: c.y * 1073741824.0 }).is_valid())),
+            ("as f32", guard(|| map_geom_g(&g, &|c| Coord { x: c.x as f32, y: c.y as f32 }).is_valid())),
+            ("zeros written as -0.0", guard(|| neg_zeros(&g, 1).is_valid())),
+        ];
+        for (what, r) in twins {
+            if r != Ok(want) {
+                acc.viol(format!("Polygon::is_valid of the same polygon {} expected {} ({}) {}", what, want, why, tag), idx, || json!({"polygon": format!("{:?}", pg), "variant": what, "expected_valid": want, "got": format!("{:?}", r)}));
+            }
+        }
+    }
     // every reported error must be true
     let empty_ring: Vec<IP> = vec![];
     let ring_of = |r: &RingRole| -> &Vec<IP> {
